@@ -111,7 +111,7 @@ impl Property for NatProp {
         let floor = eng.floor.clone();
         let in_floor = |f: &insn::Form| floor.contains(&f.name);
         let opts = match self.which {
-            Which::C01 => GenOpts::benign(eng.form_indices(|f| f.class == Class::Data && in_floor(f))),
+            Which::C01 => GenOpts::benign(eng.form_indices(|f| (f.class == Class::Data || f.code == Code::Cpuid) && in_floor(f))),
             Which::C02 => {
                 let mut o = GenOpts::benign(eng.form_indices(|f| f.class != Class::Os && in_floor(f) && !insn::vendor_divergent(f.code)));
                 o.mem16 = 5;
@@ -316,6 +316,37 @@ impl Property for NatProp {
         let code = format!("{:?}", d.ins.code());
         let in_floor = self.eng().floor.contains(&code);
         let mut out = CaseOut::pass(false, fp).class(format!("form:{}", code));
+        if which == Which::C01 && d.ins.code() == Code::Cpuid {
+            // host-specific payload: not compared with this CPU. What the architecture fixes is the shape:
+            // EAX EBX ECX EDX are written as 32-bit values and nothing else changes.
+            out.nontrivial = true;
+            out = out.class("cpuid-shape").class("ok:Cpuid");
+            let pre = c.regs();
+            let problem: Option<String> = match (&d.emu, &d.emu_regs) {
+                (Emu::Ok(_), Some(er)) => {
+                    if [0usize, 1, 2, 3].iter().any(|i| er.gpr[*i] >> 32 != 0) {
+                        Some("EAX/EBX/ECX/EDX not written as 32-bit values (upper halves not zero)".into())
+                    } else if (4..16).any(|i| er.gpr[i] != pre.gpr[i]) || er.xmm != pre.xmm {
+                        Some("a register other than RAX RBX RCX RDX changed".into())
+                    } else if er.rip != d.ins.next_ip() {
+                        Some(format!("rip {:#x}, next instruction {:#x}", er.rip, d.ins.next_ip()))
+                    } else if (er.rflags ^ pre.rflags) & ALL_FLAGS != 0 {
+                        Some("flags changed".into())
+                    } else if let Some(a) = d.emu_mem_changed {
+                        Some(format!("memory changed at {:#x}", a))
+                    } else {
+                        d.mism.iter().find(|(c, _)| matches!(c, Comp::Extra(_))).map(|(_, t)| t.clone())
+                    }
+                }
+                (Emu::Err(e), _) => Some(format!("step failed: {}", emu_err_first_line(e))),
+                (Emu::Panic(p), _) => Some(format!("step crashed: {} at {}", p.message, p.location)),
+                _ => Some("no result".into()),
+            };
+            if let Some(pb) = problem {
+                out.verdict = Verdict::Fail { sig: "C01|Cpuid|shape".into(), msg: format!("cpuid [{}]: {}", c.code, pb) };
+            }
+            return out;
+        }
         if let Some(r) = d.skip_native {
             return CaseOut::discard(&format!("native-skipped:{}", r));
         }
@@ -404,6 +435,11 @@ impl Property for NatProp {
             _ => {
                 // C01 C02 C03 C05: both sides must have completed, otherwise it is C06's business
                 if !n.completed() {
+                    if which == Which::C05 && matches!(d.emu, Emu::Ok(_)) && has_mem {
+                        // the CPU's address is unmapped but the emulator's access went through: it computed another address
+                        let sig = format!("C05|{}|ok-vs-fault", code);
+                        return CaseOut { verdict: Verdict::Fail { sig, msg: detail(&d, "the CPU faults on this operand's address but the emulator's access succeeded (address mismatch?)") }, nontrivial: true, ..out };
+                    }
                     return CaseOut::discard("cpu-faults (C06)");
                 }
                 match &d.emu {
@@ -504,7 +540,7 @@ impl Property for NatProp {
 
     fn required_classes(&self, _tier: Tier) -> Vec<String> {
         match self.which {
-            Which::C01 => vec!["operand:mem".into(), "operand:reg".into()],
+            Which::C01 => vec!["operand:mem".into(), "operand:reg".into(), "cpuid-shape".into()],
             Which::C02 => vec!["flags:preserving-form".into(), "flags:modifying-form".into(), "shift:masked-count-0".into(), "shift:count-1".into(), "shift:count>=width".into()],
             Which::C03 => vec!["branch:taken".into(), "branch:not-taken".into()],
             Which::C04 => vec!["program".into(), "program:stack+rsp-relative".into(), "deviation:matches-bias-model".into()],
@@ -528,7 +564,7 @@ impl Property for NatProp {
             let (forms, _) = insn::candidate_forms();
             let floor: Vec<String> = insn::load_floor();
             for name in floor {
-                let is_data = forms.iter().any(|f| f.name == name && f.class == Class::Data);
+                let is_data = forms.iter().any(|f| f.name == name && (f.class == Class::Data || f.code == Code::Cpuid));
                 if is_data && hist.get(&format!("ok:{}", name)).copied().unwrap_or(0) == 0 {
                     out.push((format!("C01|{}|form-no-longer-executes", name), format!("floor form {} produced no successful step in this run (the set of implemented forms shrank, or the form now always fails)", name)));
                 }
